@@ -84,7 +84,7 @@ theorem reverse_spec (a : Arr) (m : Mem) (hinv : a.Inv) :
 /-- loop invariant of the compaction loop, `n` iterations remaining: the slots below `n` are
 untouched, `rm` rejected slots follow, then the `keep` survivors of the processed suffix -/
 def FMInv (p : Nat → Bool) (orig : List Nat) (L : Nat) (n : Nat) (s : FM) : Prop :=
-  n ≤ orig.length ∧ s.buf.length = L ∧ s.size = n + s.rm + s.keep ∧ s.size ≤ L ∧
+  n ≤ orig.length ∧ s.buf.length = L ∧ s.size = n + s.rm + s.keep ∧ (s.size ≤ L ∧ s.ok = true) ∧
   (∀ t, t < n → s.buf.get t = orig.getD t 0) ∧
   s.keep = ((orig.drop n).filter p).length ∧
   (∀ t, t < s.keep → s.buf.get (n + s.rm + t) = ((orig.drop n).filter p).getD t 0) ∧
@@ -97,8 +97,9 @@ theorem filterMutLoop_inv (p : Nat → Bool) (orig : List Nat) (L : Nat) : ∀ n
   | zero => intro s h; simpa [filterMutLoop] using h
   | succ i ih =>
     intro s h
-    obtain ⟨h1, h2, h3, h4, h5, h6, h7, h8⟩ := h
+    obtain ⟨h1, h2, h3, ⟨h4, h9⟩, h5, h6, h7, h8⟩ := h
     have hi : i < orig.length := by omega
+    have hiL : decide (i < s.buf.length) = true := by simp; omega
     have hdrop : orig.drop i = orig[i] :: orig.drop (i + 1) := List.drop_eq_getElem_cons hi
     have he : s.buf.get i = orig[i] := by
       rw [h5 i (by omega), List.getD_eq_getElem?_getD, List.getElem?_eq_getElem hi]; rfl
@@ -114,7 +115,7 @@ theorem filterMutLoop_inv (p : Nat → Bool) (orig : List Nat) (L : Nat) : ∀ n
       · simp only [hrm, if_true]
         by_cases hk : s.keep > 0
         · simp only [hk, if_true]
-          refine ⟨by omega, by simp [h2], by simp only; omega, by simp only; omega, ?_, ?_, ?_, ?_⟩
+          refine ⟨by omega, by simp [h2], by simp only; omega, ⟨by simp only; omega, by simp only [h9, hiL]; simp <;> omega⟩, ?_, ?_, ?_, ?_⟩
           · intro t ht
             simp only
             rw [Buf.get_memmove _ _ _ _ _ (by omega)]
@@ -140,7 +141,7 @@ theorem filterMutLoop_inv (p : Nat → Bool) (orig : List Nat) (L : Nat) : ∀ n
           · simp only; rw [hdrop, List.reverse_cons, h8, he]
         · have hk0 : s.keep = 0 := by omega
           simp only [hk, if_false]
-          refine ⟨by omega, by simp [h2], by simp only; omega, by simp only; omega, ?_, ?_, ?_, ?_⟩
+          refine ⟨by omega, by simp [h2], by simp only; omega, ⟨by simp only; omega, by simp only [h9, hiL]; simp <;> omega⟩, ?_, ?_, ?_, ?_⟩
           · intro t ht; exact h5 t (by omega)
           · simp only; rw [hfil]; simp [h6]
           · intro t ht
@@ -153,7 +154,7 @@ theorem filterMutLoop_inv (p : Nat → Bool) (orig : List Nat) (L : Nat) : ∀ n
           · simp only; rw [hdrop, List.reverse_cons, h8, he]
       · have hrm0 : s.rm = 0 := by omega
         simp only [hrm, if_false]
-        refine ⟨by omega, h2, by simp only; omega, h4, ?_, ?_, ?_, ?_⟩
+        refine ⟨by omega, h2, by simp only; omega, ⟨h4, by simp only [h9, hiL]; rfl⟩, ?_, ?_, ?_, ?_⟩
         · intro t ht; exact h5 t (by omega)
         · simp only; rw [hfil]; simp [h6]
         · intro t ht
@@ -174,7 +175,7 @@ theorem filterMutLoop_inv (p : Nat → Bool) (orig : List Nat) (L : Nat) : ∀ n
       apply ih
       have hfil : (orig.drop i).filter p = (orig.drop (i + 1)).filter p := by
         rw [hdrop, List.filter_cons]; simp [hp']
-      refine ⟨by omega, h2, by simp only; omega, h4, ?_, ?_, ?_, ?_⟩
+      refine ⟨by omega, h2, by simp only; omega, ⟨h4, by simp only [h9, hiL]; rfl⟩, ?_, ?_, ?_, ?_⟩
       · intro t ht; exact h5 t (by omega)
       · simp only; rw [hfil]; exact h6
       · intro t ht
@@ -203,20 +204,19 @@ theorem filterMut_spec (p : Nat → Bool) (a : Arr) (m : Mem) (hinv : a.Inv) :
   · have hnil : a.abs = [] := (abs_eq_nil_iff a).2 h0
     simp [h0, hnil, Kept.refl]
   · have hnil : ¬ a.abs = [] := by rw [abs_eq_nil_iff]; exact h0
-    have h6 : decide (a.size ≤ a.buf.length) = true := by simpa using hl
-    simp only [h0, if_false, hnil, h6, Mem.check_true]
+    simp only [h0, if_false, hnil]
     have hstart : FMInv p a.abs a.buf.length a.size { buf := a.buf, size := a.size, rm := 0, keep := 0, log := [] } := by
-      refine ⟨by simp, rfl, by simp, by simpa using hl, fun t ht => abs_getD' a t ht, ?_, ?_, ?_⟩
+      refine ⟨by simp, rfl, by simp, ⟨by simpa using hl, rfl⟩, fun t ht => abs_getD' a t ht, ?_, ?_, ?_⟩
       · simp only; rw [List.drop_of_length_le (by simp)]; rfl
       · intro t ht; simp at ht
       · simp only; rw [List.drop_of_length_le (by simp)]; rfl
     have hend := filterMutLoop_inv p a.abs a.buf.length a.size _ hstart
     generalize filterMutLoop p a.size { buf := a.buf, size := a.size, rm := 0, keep := 0, log := [] } = s at hend
-    obtain ⟨e1, e2, e3, e4, e5, e6, e7, e8⟩ := hend
+    obtain ⟨e1, e2, e3, ⟨e4, e9⟩, e5, e6, e7, e8⟩ := hend
     simp only [List.drop_zero, Nat.zero_add] at e3 e6 e7 e8
     have hle : (a.abs.filter p).length ≤ a.size := by
       have := List.length_filter_le p a.abs; simpa using this
-    refine ⟨by trivial, ?_, ?_, ?_, by trivial, ?_, by simp, by simp; omega⟩
+    refine ⟨by trivial, ?_, ?_, ?_, ?_, ?_, by simp, by simp; omega⟩
     · -- content
       apply abs_eq_iff
       · by_cases hrm : s.rm > 0 <;> simp only [hrm, if_true, if_false] <;> omega
@@ -235,6 +235,10 @@ theorem filterMut_spec (p : Nat → Bool) (a : Arr) (m : Mem) (hinv : a.Inv) :
           congr 1; omega
     · by_cases hrm : s.rm > 0 <;> simp [hrm, Kept, e2]
     · by_cases hrm : s.rm > 0 <;> simp only [hrm, if_true, if_false] <;> omega
+    · by_cases hrm : s.rm > 0
+      · have : decide (s.rm + s.keep ≤ s.buf.length) = true := by simp; omega
+        simp only [hrm, if_true, e9, this, Bool.and_self, Mem.check_true]
+      · simp only [hrm, if_false, e9, Mem.check_true]
     · intro _
       by_cases hrm : s.rm > 0 <;> simp [hrm, e8]
 
@@ -270,31 +274,40 @@ theorem filter_loop (p : Nat → Bool) (src : Buf Nat) (C : Nat) : ∀ k, k ≤ 
     · simp only [hp, if_false, Bool.false_eq_true, List.filter_cons, List.filter_nil, List.append_nil]
       exact ⟨i1, i2, by omega, i4⟩
 
-/-- the allocation pair of the derived-array builders -/
-theorem alloc2_cases (m : Mem) :
-    ((alloc2 m).1 = true ∧ (alloc2 m).2.live = m.live + 2 ∧ (alloc2 m).2.fault = m.fault) ∨
-    ((alloc2 m).1 = false ∧ (alloc2 m).2.live = m.live ∧ (alloc2 m).2.fault = m.fault) := by
+/-- the allocation pair of the derived-array builders, through the triple `t`: both blocks or none -/
+theorem alloc2_cases (m : Mem) (t : Triple := .conf) :
+    ((alloc2 m t).1 = true ∧ own t (alloc2 m t).2 = own t m + 2 ∧ (alloc2 m t).2.fault = m.fault) ∨
+    ((alloc2 m t).1 = false ∧ own t (alloc2 m t).2 = own t m ∧ (alloc2 m t).2.fault = m.fault) := by
   unfold alloc2
-  rcases alloc_cases m with ⟨g1, g2, g3⟩ | ⟨g1, g2, g3⟩
-  · simp only [g1, Bool.not_true, Bool.false_eq_true, if_false]
-    rcases alloc_cases m.alloc.2 with ⟨k1, k2, k3⟩ | ⟨k1, k2, k3⟩
-    · left; simp [k1, k2, k3, g2, g3]
+  rcases allocT_cases m t with ⟨g1, _, g3⟩ | ⟨g1, _, g3⟩
+  · have o1 := own_allocT_ok m t g1
+    simp only [g1, Bool.not_true, Bool.false_eq_true, if_false]
+    rcases allocT_cases (m.allocT t).2 t with ⟨k1, _, k3⟩ | ⟨k1, _, k3⟩
+    · left
+      have o2 := own_allocT_ok (m.allocT t).2 t k1
+      simp only [k1, Bool.not_true, Bool.false_eq_true, if_false]
+      exact ⟨trivial, by omega, by rw [k3, g3]⟩
     · right
-      have hf := free_live m.alloc.2.alloc.2 (by omega)
-      simp [k1, hf.1, hf.2, k2, k3, g2, g3]
-  · right; simp [g1, g2, g3]
+      have o2 := own_allocT_refused (m.allocT t).2 t k1
+      have hf := freeT_live ((m.allocT t).2.allocT t).2 t (by omega)
+      simp only [k1, Bool.not_false, if_true]
+      exact ⟨trivial, by rw [hf.2.2]; omega, by rw [hf.2.1, k3, g3]⟩
+  · right
+    have o1 := own_allocT_refused m t g1
+    simp only [g1, Bool.not_false, if_true]
+    exact ⟨trivial, o1, g3⟩
 
 /-- `cc_array_filter`: a new array with the source's capacity, configuration and allocators holding
 exactly the elements that satisfy the predicate; the source is not an argument of the result
 (value semantics), a refusal yields no object and a balanced ledger -/
 theorem filter_spec (p : Nat → Bool) (a : Arr) (m : Mem) (hinv : a.Inv) :
     ((a.filter p m).1 = .errOutOfRange ∧ a.size = 0 ∧ (a.filter p m).2.1 = none ∧ (a.filter p m).2.2.2 = m) ∨
-    ((a.filter p m).1 = .errAlloc ∧ 0 < a.size ∧ (alloc2 m).1 = false ∧ (a.filter p m).2.1 = none ∧
-      (a.filter p m).2.2.2.live = m.live ∧ (a.filter p m).2.2.2.fault = m.fault) ∨
-    ((a.filter p m).1 = .ok ∧ 0 < a.size ∧ (alloc2 m).1 = true ∧
+    ((a.filter p m).1 = .errAlloc ∧ 0 < a.size ∧ (alloc2 m a.triple).1 = false ∧ (a.filter p m).2.1 = none ∧
+      own a.triple (a.filter p m).2.2.2 = own a.triple m ∧ (a.filter p m).2.2.2.fault = m.fault) ∨
+    ((a.filter p m).1 = .ok ∧ 0 < a.size ∧ (alloc2 m a.triple).1 = true ∧
       ∃ r, (a.filter p m).2.1 = some r ∧ r.abs = a.abs.filter p ∧ r.Inv ∧ r.grow = a.grow ∧
         r.capacity = a.capacity ∧ (a.filter p m).2.2.1 = a.abs ∧
-        (a.filter p m).2.2.2.live = m.live + 2 ∧ (a.filter p m).2.2.2.fault = m.fault) := by
+        own a.triple (a.filter p m).2.2.2 = own a.triple m + 2 ∧ (a.filter p m).2.2.2.fault = m.fault) := by
   have hl := hinv.size_le_len
   obtain ⟨h1, h2, h3, h4⟩ := hinv
   unfold filter
@@ -302,7 +315,7 @@ theorem filter_spec (p : Nat → Bool) (a : Arr) (m : Mem) (hinv : a.Inv) :
   · left; simp [h0]
   · right
     simp only [h0, if_false]
-    rcases alloc2_cases m with ⟨g1, g2, g3⟩ | ⟨g1, g2, g3⟩
+    rcases alloc2_cases m a.triple with ⟨g1, g2, g3⟩ | ⟨g1, g2, g3⟩
     · right
       have h6 : (decide (a.size ≤ a.buf.length) && decide (a.size ≤ a.capacity)) = true := by simp; omega
       simp only [g1, Bool.not_true, Bool.false_eq_true, if_false, h6, Mem.check_true]
@@ -322,11 +335,11 @@ theorem filter_spec (p : Nat → Bool) (a : Arr) (m : Mem) (hinv : a.Inv) :
 
 /-- `cc_array_trim_capacity`: content untouched; on success the capacity is `max size 1` (C20);
 a refusal leaves the whole state alone; the ledger is balanced -/
-theorem trimCapacity_spec (a : Arr) (m : Mem) (hinv : a.Inv) (hlive : 0 < m.live) :
+theorem trimCapacity_spec (a : Arr) (m : Mem) (hinv : a.Inv) :
     (((a.trimCapacity m).1 = .ok ∧ (a.trimCapacity m).2.1.abs = a.abs ∧ (a.trimCapacity m).2.1.size = a.size ∧
       (a.trimCapacity m).2.1.capacity = max a.size 1 ∧ (a.trimCapacity m).2.1.Inv ∧
       (a.trimCapacity m).2.1.grow = a.grow) ∨
-     ((a.trimCapacity m).1 = .errAlloc ∧ m.alloc.1 = false ∧ (a.trimCapacity m).2.1 = a)) ∧
+     ((a.trimCapacity m).1 = .errAlloc ∧ (m.allocT a.triple).1 = false ∧ (a.trimCapacity m).2.1 = a)) ∧
     (a.trimCapacity m).2.2.live = m.live ∧ (a.trimCapacity m).2.2.fault = m.fault := by
   have hinv' := hinv
   obtain ⟨h1, h2, h3, h4⟩ := hinv
@@ -341,14 +354,14 @@ theorem trimCapacity_spec (a : Arr) (m : Mem) (hinv : a.Inv) (hlive : 0 < m.live
       refine ⟨Or.inl ⟨by triv, by triv, by triv, ?_, hinv', by triv⟩, by triv, by triv⟩
       rw [← he2]; split <;> omega
     · simp only [he2, if_false]
-      rcases alloc_cases m with ⟨g1, g2, g3⟩ | ⟨g1, g2, g3⟩
+      rcases allocT_cases m a.triple with ⟨g1, g2, g3⟩ | ⟨g1, g2, g3⟩
       · have hc : (decide (a.size ≤ a.buf.length) && decide (a.size ≤ if a.size < 1 then 1 else a.size)) = true := by
           simp; constructor
           · omega
           · split <;> omega
-        have hf := free_live m.alloc.2 (by omega)
+        have hf := freeT_live (m.allocT a.triple).2 a.triple (own_pos_of_allocT m a.triple g1)
         simp only [g1, Bool.not_true, Bool.false_eq_true, if_false, hc, Mem.check_true]
-        refine ⟨Or.inl ⟨by triv, ?_, by triv, ?_, ⟨?_, by simp, ?_, ?_⟩, by triv⟩, by rw [hf.1]; omega, by rw [hf.2]; exact g3⟩
+        refine ⟨Or.inl ⟨by triv, ?_, by triv, ?_, ⟨?_, by simp, ?_, ?_⟩, by triv⟩, by rw [hf.1, g2]; omega, by rw [hf.2.1]; exact g3⟩
         · refine abs_congr _ a rfl ?_
           intro i hi
           simp only at hi ⊢
@@ -391,19 +404,19 @@ array of its own; a refusal yields no object and a balanced ledger -/
 theorem subarray_spec (a : Arr) (b e : Nat) (m : Mem) (hinv : a.Inv) :
     ((a.subarray b e m).1 = .errInvalidRange ∧ ¬ (b ≤ e ∧ e < a.size) ∧ (a.subarray b e m).2.1 = none ∧
       (a.subarray b e m).2.2 = m) ∨
-    ((a.subarray b e m).1 = .errAlloc ∧ (b ≤ e ∧ e < a.size) ∧ (alloc2 m).1 = false ∧ (a.subarray b e m).2.1 = none ∧
-      (a.subarray b e m).2.2.live = m.live ∧ (a.subarray b e m).2.2.fault = m.fault) ∨
-    ((a.subarray b e m).1 = .ok ∧ (b ≤ e ∧ e < a.size) ∧ (alloc2 m).1 = true ∧
+    ((a.subarray b e m).1 = .errAlloc ∧ (b ≤ e ∧ e < a.size) ∧ (alloc2 m a.triple).1 = false ∧ (a.subarray b e m).2.1 = none ∧
+      own a.triple (a.subarray b e m).2.2 = own a.triple m ∧ (a.subarray b e m).2.2.fault = m.fault) ∨
+    ((a.subarray b e m).1 = .ok ∧ (b ≤ e ∧ e < a.size) ∧ (alloc2 m a.triple).1 = true ∧
       ∃ r, (a.subarray b e m).2.1 = some r ∧ some r.abs = (Spec.Seq.subarray a.abs b e).2 ∧ r.Inv ∧
         r.grow = a.grow ∧ r.capacity = r.size ∧
-        (a.subarray b e m).2.2.live = m.live + 2 ∧ (a.subarray b e m).2.2.fault = m.fault) := by
+        own a.triple (a.subarray b e m).2.2 = own a.triple m + 2 ∧ (a.subarray b e m).2.2.fault = m.fault) := by
   obtain ⟨h1, h2, h3, h4⟩ := hinv
   unfold subarray
   by_cases hr : b ≤ e ∧ e < a.size
   · right
     have h5 : (decide (b > e) || decide (e ≥ a.size)) = false := by simp; omega
     simp only [h5, Bool.false_eq_true, if_false]
-    rcases alloc2_cases m with ⟨g1, g2, g3⟩ | ⟨g1, g2, g3⟩
+    rcases alloc2_cases m a.triple with ⟨g1, g2, g3⟩ | ⟨g1, g2, g3⟩
     · right
       have h6 : (decide (b + (e - b + 1) ≤ a.buf.length) && decide (e - b + 1 ≤ a.capacity)) = true := by
         simp; omega
@@ -431,15 +444,15 @@ theorem subarray_spec (a : Arr) (b e : Nat) (m : Mem) (hinv : a.Inv) :
 
 /-- `cc_array_copy_shallow` -/
 theorem copyShallow_spec (a : Arr) (m : Mem) (hinv : a.Inv) :
-    ((a.copyShallow m).1 = .errAlloc ∧ (alloc2 m).1 = false ∧ (a.copyShallow m).2.1 = none ∧
-      (a.copyShallow m).2.2.live = m.live ∧ (a.copyShallow m).2.2.fault = m.fault) ∨
-    ((a.copyShallow m).1 = .ok ∧ (alloc2 m).1 = true ∧
+    ((a.copyShallow m).1 = .errAlloc ∧ (alloc2 m a.triple).1 = false ∧ (a.copyShallow m).2.1 = none ∧
+      own a.triple (a.copyShallow m).2.2 = own a.triple m ∧ (a.copyShallow m).2.2.fault = m.fault) ∨
+    ((a.copyShallow m).1 = .ok ∧ (alloc2 m a.triple).1 = true ∧
       ∃ r, (a.copyShallow m).2.1 = some r ∧ r.abs = Spec.Seq.copyShallow a.abs ∧ r.Inv ∧
         r.grow = a.grow ∧ r.capacity = a.capacity ∧
-        (a.copyShallow m).2.2.live = m.live + 2 ∧ (a.copyShallow m).2.2.fault = m.fault) := by
+        own a.triple (a.copyShallow m).2.2 = own a.triple m + 2 ∧ (a.copyShallow m).2.2.fault = m.fault) := by
   obtain ⟨h1, h2, h3, h4⟩ := hinv
   unfold copyShallow
-  rcases alloc2_cases m with ⟨g1, g2, g3⟩ | ⟨g1, g2, g3⟩
+  rcases alloc2_cases m a.triple with ⟨g1, g2, g3⟩ | ⟨g1, g2, g3⟩
   · right
     have h6 : (decide (a.size ≤ a.buf.length) && decide (a.size ≤ a.capacity)) = true := by simp; omega
     simp only [g1, Bool.not_true, Bool.false_eq_true, if_false, h6, Mem.check_true]
@@ -455,15 +468,15 @@ theorem copyShallow_spec (a : Arr) (m : Mem) (hinv : a.Inv) :
 /-- `cc_array_copy_deep`: the images under the copy function, which is called once per element
 in index order -/
 theorem copyDeep_spec (cp : Nat → Nat) (a : Arr) (m : Mem) (hinv : a.Inv) :
-    ((a.copyDeep cp m).1 = .errAlloc ∧ (alloc2 m).1 = false ∧ (a.copyDeep cp m).2.1 = none ∧
-      (a.copyDeep cp m).2.2.2.live = m.live ∧ (a.copyDeep cp m).2.2.2.fault = m.fault) ∨
-    ((a.copyDeep cp m).1 = .ok ∧ (alloc2 m).1 = true ∧
+    ((a.copyDeep cp m).1 = .errAlloc ∧ (alloc2 m a.triple).1 = false ∧ (a.copyDeep cp m).2.1 = none ∧
+      own a.triple (a.copyDeep cp m).2.2.2 = own a.triple m ∧ (a.copyDeep cp m).2.2.2.fault = m.fault) ∨
+    ((a.copyDeep cp m).1 = .ok ∧ (alloc2 m a.triple).1 = true ∧
       ∃ r, (a.copyDeep cp m).2.1 = some r ∧ r.abs = Spec.Seq.copyDeep cp a.abs ∧ r.Inv ∧
         r.grow = a.grow ∧ r.capacity = a.capacity ∧ (a.copyDeep cp m).2.2.1 = a.abs ∧
-        (a.copyDeep cp m).2.2.2.live = m.live + 2 ∧ (a.copyDeep cp m).2.2.2.fault = m.fault) := by
+        own a.triple (a.copyDeep cp m).2.2.2 = own a.triple m + 2 ∧ (a.copyDeep cp m).2.2.2.fault = m.fault) := by
   obtain ⟨h1, h2, h3, h4⟩ := hinv
   unfold copyDeep
-  rcases alloc2_cases m with ⟨g1, g2, g3⟩ | ⟨g1, g2, g3⟩
+  rcases alloc2_cases m a.triple with ⟨g1, g2, g3⟩ | ⟨g1, g2, g3⟩
   · right
     have h6 : (decide (a.size ≤ a.buf.length) && decide (a.size ≤ a.capacity)) = true := by simp; omega
     simp only [g1, Bool.not_true, Bool.false_eq_true, if_false, h6, Mem.check_true]
@@ -522,62 +535,83 @@ theorem reduce_spec (fn : Nat → Nat → Nat) (a : Arr) (r0 : Nat) (m : Mem) (h
 
 /-! ### constructor, destructor -/
 
+/-- for a valid capacity the constructor is its allocation pair -/
+theorem new_eq (cap : Nat) (grow : Nat → Nat) (exGe : Nat → Bool) (m : Mem) (t : Triple)
+    (h0 : ¬ cap = 0) (h1 : ¬ exGe (Gen.CC_MAX_ELEMENTS / cap) = true) (h8 : ¬ cap > Gen.CC_MAX_ELEMENTS / 8) :
+    Arr.new cap grow exGe m t =
+      if (alloc2 m t).1 then (.ok, some { size := 0, capacity := cap, buf := Buf.mk cap, grow := grow, triple := t }, (alloc2 m t).2)
+      else (.errAlloc, none, (alloc2 m t).2) := by
+  unfold Arr.new alloc2
+  simp only [h0, h1, h8, if_false, Bool.false_eq_true]
+  cases (m.allocT t).1 <;> simp
+  cases ((m.allocT t).2.allocT t).1 <;> simp
+
+theorem new_invalid_eq (cap : Nat) (grow : Nat → Nat) (exGe : Nat → Bool) (m : Mem) (t : Triple)
+    (h : cap = 0 ∨ exGe (Gen.CC_MAX_ELEMENTS / cap) = true ∨ cap > Gen.CC_MAX_ELEMENTS / 8) :
+    Arr.new cap grow exGe m t = (.errInvalidCapacity, none, m) := by
+  unfold Arr.new
+  by_cases h0 : cap = 0
+  · simp [h0]
+  · by_cases h1 : exGe (Gen.CC_MAX_ELEMENTS / cap) = true
+    · simp [h0, h1]
+    · have h2 : cap > Gen.CC_MAX_ELEMENTS / 8 := by
+        rcases h with h | h | h
+        · exact absurd h h0
+        · exact absurd h h1
+        · exact h
+      simp [h0, h1, h2]
+
 /-- `cc_array_new_conf`: invalid capacity (0, a factor too large for it, or a buffer whose byte
 size would wrap — A9) → rejected without touching the allocator; refusal → `CC_ERR_ALLOC`, no
 object, balanced ledger; otherwise an empty sound array owning two blocks -/
-theorem new_spec (cap : Nat) (grow : Nat → Nat) (exGe : Nat → Bool) (m : Mem) :
-    ((Arr.new cap grow exGe m).1 = .errInvalidCapacity ∧ (Arr.new cap grow exGe m).2.1 = none ∧
-      (Arr.new cap grow exGe m).2.2 = m ∧
+theorem new_spec (cap : Nat) (grow : Nat → Nat) (exGe : Nat → Bool) (m : Mem) (t : Triple := .conf) :
+    ((Arr.new cap grow exGe m t).1 = .errInvalidCapacity ∧ (Arr.new cap grow exGe m t).2.1 = none ∧
+      (Arr.new cap grow exGe m t).2.2 = m ∧
       (cap = 0 ∨ exGe (Gen.CC_MAX_ELEMENTS / cap) = true ∨ Gen.CC_MAX_ELEMENTS / 8 < cap)) ∨
-    ((Arr.new cap grow exGe m).1 = .errAlloc ∧ (Arr.new cap grow exGe m).2.1 = none ∧ 1 ≤ cap ∧
-      (alloc2 m).1 = false ∧
-      (Arr.new cap grow exGe m).2.2.live = m.live ∧ (Arr.new cap grow exGe m).2.2.fault = m.fault) ∨
-    ((Arr.new cap grow exGe m).1 = .ok ∧ (alloc2 m).1 = true ∧
-      ∃ r, (Arr.new cap grow exGe m).2.1 = some r ∧ r.abs = [] ∧ r.Inv ∧ r.capacity = cap ∧ r.grow = grow ∧
-        (Arr.new cap grow exGe m).2.2.live = m.live + 2 ∧ (Arr.new cap grow exGe m).2.2.fault = m.fault) := by
-  unfold Arr.new
+    ((Arr.new cap grow exGe m t).1 = .errAlloc ∧ (Arr.new cap grow exGe m t).2.1 = none ∧ 1 ≤ cap ∧
+      (alloc2 m t).1 = false ∧
+      own t (Arr.new cap grow exGe m t).2.2 = own t m ∧ (Arr.new cap grow exGe m t).2.2.fault = m.fault) ∨
+    ((Arr.new cap grow exGe m t).1 = .ok ∧ (alloc2 m t).1 = true ∧
+      ∃ r, (Arr.new cap grow exGe m t).2.1 = some r ∧ r.abs = [] ∧ r.Inv ∧ r.capacity = cap ∧ r.grow = grow ∧
+        own t (Arr.new cap grow exGe m t).2.2 = own t m + 2 ∧ (Arr.new cap grow exGe m t).2.2.fault = m.fault) := by
+  have ha := alloc2_cases m t
+  -- the constructor's allocation sequence is `alloc2`
+  have hnew : ∀ (h0 : ¬ cap = 0) (h1 : ¬ exGe (Gen.CC_MAX_ELEMENTS / cap) = true) (h8 : ¬ cap > Gen.CC_MAX_ELEMENTS / 8),
+      Arr.new cap grow exGe m t =
+        if (alloc2 m t).1 then (.ok, some { size := 0, capacity := cap, buf := Buf.mk cap, grow := grow, triple := t }, (alloc2 m t).2)
+        else (.errAlloc, none, (alloc2 m t).2) := by
+    intro h0 h1 h8
+    unfold Arr.new alloc2
+    simp only [h0, h1, h8, if_false, Bool.false_eq_true]
+    cases (m.allocT t).1 <;> simp
+    cases ((m.allocT t).2.allocT t).1 <;> simp
   by_cases h0 : cap = 0
-  · left; simp [h0]
-  · simp only [h0, if_false]
-    by_cases h1 : exGe (Gen.CC_MAX_ELEMENTS / cap) = true
-    · left; simp [h1]
-    · simp only [h1, Bool.false_eq_true, if_false]
-      by_cases h8 : cap > Gen.CC_MAX_ELEMENTS / 8
-      · left; simp [h8]
+  · left; simp [Arr.new, h0]
+  · by_cases h1 : exGe (Gen.CC_MAX_ELEMENTS / cap) = true
+    · left; simp [Arr.new, h0, h1]
+    · by_cases h8 : cap > Gen.CC_MAX_ELEMENTS / 8
+      · left; simp [Arr.new, h0, h1, h8]
       · right
         have hcap : cap ≤ Gen.CC_MAX_ELEMENTS / 8 := by omega
-        simp only [h8, if_false]
-        have ha := alloc2_cases m
-        unfold alloc2 at ha ⊢
-        rcases alloc_cases m with ⟨g1, g2, g3⟩ | ⟨g1, g2, g3⟩
-        · simp only [g1, Bool.not_true, Bool.false_eq_true, if_false] at ha ⊢
-          rcases alloc_cases m.alloc.2 with ⟨k1, k2, k3⟩ | ⟨k1, k2, k3⟩
-          · right
-            simp only [k1, Bool.not_true, Bool.false_eq_true, if_false] at ha ⊢
-            rcases ha with ha | ha
-            · exact ⟨by triv, by triv, _, rfl, by simp [abs], ⟨by simp, by simp, by simp only; omega, hcap⟩, rfl, rfl, ha.2.1, ha.2.2⟩
-            · simp at ha
-          · left
-            simp only [k1, Bool.not_false, if_true] at ha ⊢
-            rcases ha with ha | ha
-            · simp at ha
-            · exact ⟨by triv, by triv, by omega, by triv, ha.2.1, ha.2.2⟩
+        rw [hnew h0 h1 h8]
+        rcases ha with ⟨a1, a2, a3⟩ | ⟨a1, a2, a3⟩
+        · right
+          simp only [a1, if_true]
+          exact ⟨trivial, trivial, _, rfl, by simp [abs], ⟨by simp, by simp, by simp only; omega, hcap⟩, rfl, rfl, a2, a3⟩
         · left
-          simp only [g1, Bool.not_false, if_true] at ha ⊢
-          rcases ha with ha | ha
-          · simp at ha
-          · exact ⟨by triv, by triv, by omega, by triv, ha.2.1, ha.2.2⟩
+          simp only [a1, Bool.false_eq_true, if_false]
+          exact ⟨trivial, trivial, by omega, trivial, a2, a3⟩
 
-/-- `cc_array_destroy` releases the two blocks of the array -/
-theorem destroy_spec (a : Arr) (m : Mem) (hlive : 2 ≤ m.live) :
-    (a.destroy m).live = m.live - 2 ∧ (a.destroy m).fault = m.fault := by
+/-- `cc_array_destroy` releases the two blocks of the array, through the array's own triple -/
+theorem destroy_spec (a : Arr) (m : Mem) (hlive : 2 ≤ own a.triple m) :
+    own a.triple (a.destroy m) = own a.triple m - 2 ∧ (a.destroy m).fault = m.fault := by
   unfold destroy
-  have f1 := free_live m (by omega)
-  have f2 := free_live m.free (by omega)
-  exact ⟨by omega, by rw [f2.2, f1.2]⟩
+  have f1 := freeT_live m a.triple (by omega)
+  have f2 := freeT_live (m.freeT a.triple) a.triple (by omega)
+  exact ⟨by omega, by rw [f2.2.1, f1.2.1]⟩
 
-theorem destroyCb_spec (a : Arr) (m : Mem) (hinv : a.Inv) (hlive : 2 ≤ m.live) :
-    (a.destroyCb m).1 = a.abs ∧ (a.destroyCb m).2.live = m.live - 2 ∧ (a.destroyCb m).2.fault = m.fault := by
+theorem destroyCb_spec (a : Arr) (m : Mem) (hinv : a.Inv) (hlive : 2 ≤ own a.triple m) :
+    (a.destroyCb m).1 = a.abs ∧ own a.triple (a.destroyCb m).2 = own a.triple m - 2 ∧ (a.destroyCb m).2.fault = m.fault := by
   have h6 : decide (a.size ≤ a.buf.length) = true := by simpa using hinv.size_le_len
   unfold destroyCb
   simp only [h6, Mem.check_true]
